@@ -30,7 +30,9 @@ RULE = ("per model (defaults of HEM/Merton/VG/CGMY, one CGMY draw per activity b
         "spread over the five y branches -- quick: 5 models, thorough: all 15; HEM p = 1 & sigma = 0, HEM intensity = 0, Merton mu_j = 0 & "
         "sigma = 0, Merton intensity = 0; VG sigma = 0 and HEM eta1 = 1 are rejected by the constructors; on an un-tempered CGMY side an "
         "infinite end point is used only where the power-law tail converges (n < y, elementary reference), otherwise the case is skipped "
-        "and counted)): break points -inf < 2-3 log-uniform negative points < 0 < 2-3 positive points < inf; every "
+        "and counted), then a second construction history (reinit_stream: per family the defaults and draws -- quick 2, thorough 6 -- "
+        "rebuilt through zoo.reinitialised, i.e. Parameters.initialisation(); mass / x / x^2, both routes, same probes, plus bitwise "
+        "equality with the fresh model; VG's reference density is computed from the primary parameters sigma, nu, theta)): break points -inf < 2-3 log-uniform negative points < 0 < 2-3 positive points < inf; every "
         "pair a <= b of break points (one side, straddling, touching 0, finite / infinite ends, degenerate) x n = 0..6 x both "
         "API routes (integrate/_x/_xx and integrate_against_xn); reference = sum of mpmath.quad pieces (30 digits, split at 0 "
         "and at the break points, x = +-t^m substituted on pieces touching 0 for VG/CGMY; error estimate <= 1e-15 relative + 1e-25 or the case is skipped). A combination is skipped (counted) "
@@ -40,30 +42,36 @@ RULE = ("per model (defaults of HEM/Merton/VG/CGMY, one CGMY draw per activity b
         "(base-class n >= 3 for HEM/Merton/CGMY, CGMY one-sided x^2) get 1e-7*|ref| + 1e-8 (measured <= 3e-10). A fixed list of past failing inputs (the quad-across-zero defect fixed by fd99be5) runs first. Truncations (l, r) are non-zero "
         "break points. non-trivial = |ref| > 1e-9 and a < b; distinct = distinct (model, route, n, a, b, truncation).")
 NOT_PROVED = [
-    "special functions: Mathlib has no erf, E1 or incomplete gamma, so Merton (mass, x, x^2), VG mass and CGMY (mass for every "
-    "y < 2, first moment) are theorems for every function satisfying an explicit derivative hypothesis (erf' = 2/sqrt(pi) e^{-x^2}, "
-    "E1' = -e^{-x}/x, d/dz Gamma(2-a, z) = -z^(1-a) e^{-z}; limits at infinity where an end point is infinite), all shown "
-    "satisfiable; that scipy.special's erf / exp1 / gamma*gammaincc are such functions is probed numerically (c09.special_ode) only",
-    "CGMY: the two-sided second moment (gammainc form, cgmy.py:171-190), mass / first moment with an infinite end point and "
-    "intervals touching 0 are compared with quadrature only; CGMY second moment on one side is scipy quad in the code",
-    "Merton x / x^2 and VG x^n with infinite end points: compared only (mass with infinite ends is proved)",
-    "x^n exp(-alpha|x|), HEM: an infinite end point together with a straddled zero (e.g. (-inf, b] with b > 0, (-inf, inf)) is "
-    "not stated as one theorem (it is the sum of a proved half-line and a proved finite piece)",
+    "special functions: Mathlib has no erf, E1 or incomplete gamma, so Merton (mass, x, x^2; every end-point shape), VG mass and CGMY "
+    "(mass for every y < 2, first moment, straddling second moment) are theorems for every function satisfying explicit hypotheses: the "
+    "derivative (erf' = 2/sqrt(pi) e^{-x^2}, E1' = -e^{-x}/x, d/dz Gamma(2-a, z) = -z^(1-a) e^{-z}, d/dz gamma(s, z) = z^(s-1) e^{-z} with "
+    "gamma(s, 0) = 0 and continuity at 0) and, where an end point is infinite, the limit at infinity (erf -> +-1, E1 -> 0, "
+    "Gamma(2-a, .) -> 0, gamma(s, .) -> Gamma(s)); derivative and limits are shown JOINTLY satisfiable (erf/E1/Gam/gl/gl_GamC_hypotheses_satisfiable); that scipy.special's "
+    "erf / exp1 / gamma*gammaincc / gamma*gammainc are such functions is probed numerically (c09.special_ode) only",
+    "CGMY: mass / first moment on intervals touching 0 (h = 0 enters the tail formulas) and everything at g = 0 / m = 0 except the "
+    "straddling second moment over a bounded interval are compared with quadrature only; CGMY second moment on one side is scipy quad in the code",
+    "VG mass over an interval containing 0 is infinite (skipped); VG x / x^2 named routes are covered through integrate_against_xn's "
+    "theorem only in value (the named methods are separate code, compared with quadrature and with each other)",
     "the scipy.integrate.quad fallbacks (base-class integrate_against_xn for n >= 3, CGMY one-sided x^2) are numerical: compared only",
     "float rounding / cancellation of the closed forms (conditioning) is absorbed by the tolerance, not modelled",
 ]
-ASSUMPTIONS = ["the density of each family is the formula of its `__call__` evaluated at the float parameters of the model; "
-               "the harness restates it in mpmath and ties it to `nu(x)` at random points (c09.density) and by a direct "
-               "quadrature of `nu.__call__` (c09.own_density)"]
-TRUSTED = ["mpmath.quad (tanh-sinh, 30 digits) and mpmath.exp as the reference",
-           "scipy.special erf / exp1 / gamma / gammainc(c); the ODE hypotheses of merton_* / vg_mass_* (erf' = 2/sqrt(pi) e^{-x^2}, "
-           "E1' = -e^{-x}/x, d/dz Gamma(2-a, z) = -z^(1-a) e^{-z}) are probed numerically on scipy's erf / exp1 / gamma*gammaincc "
-           "(c09.special_ode), not proved of them"]
+ASSUMPTIONS = ["the density of each family is the formula of its `__call__` evaluated at the float parameters of the model (VG: c, lambda_p, "
+               "lambda_m recomputed from sigma, nu, theta); the harness restates it in mpmath and ties it to `nu(x)` at random points "
+               "(c09.density) and by a direct quadrature of `nu.__call__` (c09.own_density)",
+               "an interval given by extended end points a <= b denotes (a, b], (-inf, b], (a, inf) or R (`eSet`); single points are "
+               "Lebesgue-null, so this is the integral over [a, b] of the property statement"]
+TRUSTED = ["mpmath.quad (tanh-sinh, 30 digits), mpmath.exp / erf / e1 / gammainc as the reference and as the value of the model's atoms",
+           "scipy.special erf / exp1 / gamma / gammainc(c); the hypotheses of merton_* / vg_mass_* / cgmy_* (derivatives, limits at "
+           "infinity, value and continuity at 0) are probed numerically on scipy's functions (c09.special_ode), not proved of them"]
 
 LEAN_TARGETS = ["RpylibModel.Proofs.C09", "RpylibModel.Proofs.Lemmas.C09Abstract", "RpylibModel.Proofs.Lemmas.C09XnExp",
                 "RpylibModel.Proofs.Lemmas.C09Terms", "RpylibModel.Proofs.Lemmas.C09Hem", "RpylibModel.Proofs.Lemmas.C09Vg",
                 "RpylibModel.Proofs.Lemmas.C09Special", "RpylibModel.Proofs.Lemmas.C09Improper",
-                "RpylibModel.Proofs.Lemmas.C09SpecialInf", "RpylibModel.Proofs.Lemmas.C09Cgmy", "RpylibModel.Model.Integrals"]
+                "RpylibModel.Proofs.Lemmas.C09SpecialInf", "RpylibModel.Proofs.Lemmas.C09Cgmy", "RpylibModel.Model.Integrals",
+                "RpylibModel.Model.IntegralsSpecial", "RpylibModel.Proofs.Lemmas.C09Ext", "RpylibModel.Proofs.Lemmas.C09ExtFam",
+                "RpylibModel.Proofs.Lemmas.C09MertonInf", "RpylibModel.Proofs.Lemmas.C09SpecTerms",
+                "RpylibModel.Proofs.Lemmas.C09Satisfiable", "RpylibModel.Proofs.Lemmas.C09CgmyInf",
+                "RpylibModel.Proofs.Lemmas.C09CgmyXX"]
 
 _STATS = {} if os.environ.get("C09_STATS") else None
 
@@ -114,7 +122,12 @@ def dens_mp(fam, P):
         k = lam / (s * mp.sqrt(2 * mp.pi))
         return lambda x: k * mp.exp(-(x - mu) ** 2 / (2 * s * s))
     if fam == "vg":
-        c, lm, lp = M(P._c), M(P._lambda_m), M(P._lambda_p)
+        # from the primary parameters (variancegamma.py:24-33 computes c, lambda_p, lambda_m from them in __init__ and again in
+        # initialisation()): a model rebuilt through initialisation() must have the same density as a fresh one
+        sg, nu_, th = M(P.sigma), M(P.nu), M(P.theta)
+        c = 1 / nu_
+        lp = mp.sqrt(th ** 2 + 2 * sg ** 2 / nu_) / sg ** 2 - th / sg ** 2
+        lm = lp + 2 * th / sg ** 2
         return lambda x: c * mp.exp(lm * x) / (-x) if x < 0 else (c * mp.exp(-lp * x) / x if x > 0 else mp.mpf(0))
     if fam == "cgmy":
         c, g, m_, y = M(P.c), M(P.g), M(P.m), M(P.y)
@@ -480,6 +493,163 @@ def terms_probe(ctx, probe, name, line, impl_call, inp, cls):
     return tot, sc, v
 
 
+def _q(tok):
+    """rational / inf token of a driver answer as mpf"""
+    if tok in ("inf", "-inf"):
+        return mp.inf if tok == "inf" else -mp.inf
+    f = rd(tok)
+    return mp.mpf(f.numerator) / f.denominator
+
+
+def _items(block):
+    block = block.strip()
+    assert block[0] == "[" and block[-1] == "]", block
+    return [it.split(",") for it in block[1:-1].split(";") if it]
+
+
+def eval_merton_terms(out, P):
+    """Σ c·erf((u−μ)/(σ√2)) (erf(±inf) = ±1) + Σ c·σ/√(2π)·exp(−(u−μ)²/(2σ²)), the atoms evaluated by mpmath"""
+    mu, sg = M(P.mu_j), M(P.sigma_j)
+    eb, gb = out.split(" ")
+    tot, sc = mp.mpf(0), mp.mpf(0)
+    for c_, u in _items(eb):
+        u = _q(u)
+        t = _q(c_) * (mp.mpf(1) if u == mp.inf else mp.mpf(-1) if u == -mp.inf else mp.erf((u - mu) / (sg * mp.sqrt(2))))
+        tot += t; sc += abs(t)
+    for c_, u in _items(gb):
+        t = _q(c_) * sg / mp.sqrt(2 * mp.pi) * mp.exp(-(_q(u) - mu) ** 2 / (2 * sg ** 2))
+        tot += t; sc += abs(t)
+    return tot, sc
+
+
+def eval_e1_terms(out):
+    tot, sc = mp.mpf(0), mp.mpf(0)
+    for c_, z in _items(out):
+        z = _q(z)
+        if not z > 0:
+            return None
+        t = _q(c_) * mp.e1(z)
+        tot += t; sc += abs(t)
+    return tot, sc
+
+
+def cgmy_atom(kind, args):
+    """the integral an atom stands for, by mpmath's incomplete gamma functions (independent of the code's formulas);
+    None: un-tempered tail (rate 0), see the known findings C09-cgmy-untempered-*"""
+    if kind in ("tailMass", "tailX"):
+        al, u, h = (_q(x) for x in args)
+        if not (u > 0 and h > 0):
+            return None
+        e = -al if kind == "tailMass" else 1 - al          # ∫_h^∞ e^{−ux} x^{e−1} dx = u^{−e} Γ(e, u h)
+        return mp.gammainc(e, u * h) * u ** (-e)
+    if kind == "lowGam":
+        s_, r, h = (_q(x) for x in args)
+        return (mp.gamma(s_) if h == mp.inf else mp.gammainc(s_, 0, r * h)) / r ** s_
+    if kind == "pow":
+        s_, h = (_q(x) for x in args)
+        return h ** s_ / s_
+    raise ValueError(kind)
+
+
+def cgmy_atom_internal(kind, args):
+    """magnitude of the terms that the code's own formula for the atom subtracts (cgmy.py:215-235, 262-276): the
+    cancellation-aware part of the comparison scale"""
+    if kind == "tailMass":
+        al, u, h = (_q(x) for x in args)
+        if al == 0:
+            return mp.mpf(0)
+        e = mp.exp(-u * h)
+        if al >= 1:
+            low = ("tailMass", [args[0] + "-1" if False else str(rd(args[0]) - 1), args[1], args[2]])
+            return e / (al * h ** al) + (u / al) * (cgmy_atom_internal(*low) + abs(cgmy_atom(*low)))
+        return e * (1 + u * h / abs(1 - al)) / (abs(al) * h ** al)
+    if kind == "tailX":
+        al, u, h = (_q(x) for x in args)
+        return mp.mpf(0) if al == 1 else h ** (1 - al) * mp.exp(-u * h) / abs(al - 1)
+    return mp.mpf(0)
+
+
+def eval_cgmy_terms(out):
+    tot, sc = mp.mpf(0), mp.mpf(0)
+    for it in _items(out):
+        v = cgmy_atom(it[1], it[2:])
+        if v is None:
+            return None
+        t = _q(it[0]) * v
+        tot += t; sc += abs(t) + abs(_q(it[0])) * cgmy_atom_internal(it[1], it[2:])
+    return tot, sc
+
+
+def atoms_probe(ctx, probe, name, line, evaluator, impl_call, inp, cls, none_means_nonfinite=False, extra_scale=0):
+    """C: implementation vs a special-function closed form that M returns as a list of (rational coefficient, atom); the
+    atoms are evaluated with mpmath's erf / e1 / gammainc.  M's `none` (`err`): outside the modelled closed forms -- only
+    checked against the implementation where M claims the code fails (none_means_nonfinite)"""
+    out = ctx.lean(line)
+    try:
+        with warnings.catch_warnings(), np.errstate(all="ignore"):
+            warnings.simplefilter("ignore")
+            v = impl_call()
+            v = float(v.real if np.iscomplexobj(v) and complex(v).imag == 0 else (math.nan if np.iscomplexobj(v) else v))
+        st = "ok"
+    except Exception as e:  # noqa
+        st, v = "raise", f"{type(e).__name__}: {e}"[:160]
+    if out == "bad-op":
+        ctx.count(probe, inp, nontrivial=False, branch="bad-op")
+        ctx.fail("corr", probe, inp, {"name": name, "model": out}, cls=cls)
+        return
+    if out == "err":
+        ctx.count(probe, inp, nontrivial=False, branch="model_none")
+        if none_means_nonfinite and st == "ok" and math.isfinite(v):
+            ctx.fail("corr", probe, inp, {"name": name, "implementation": v, "model": out}, cls=cls)
+        return
+    ev = evaluator(out)
+    if ev is None:
+        ctx.count(probe, inp, nontrivial=False, branch="atom_outside_domain")
+        return
+    tot, sc = ev
+    ctx.count(probe, inp, nontrivial=bool(st == "ok" and sc > 0), branch="terms")
+    tol = mp.mpf(2) ** -40 * (sc + extra_scale) + mp.mpf(10) ** -300
+    if not (st == "ok" and math.isfinite(v) and abs(M(v) - tot) <= tol):
+        ctx.fail("corr", probe, inp, {"name": name, "implementation": v, "model_value": mp.nstr(tot, 17), "model_terms": out[:300],
+                                      "tolerance": mp.nstr(tol, 5)}, cls=cls)
+    elif _STATS is not None:
+        _stat((probe, cls.get("ybranch"), cls.get("n"), cls.get("shape")), abs(M(v) - tot), tol)
+
+
+def special_terms_probes(c: Case, pairs, nmax):
+    """C for the closed forms with special functions: Merton (k = 0, 1, 2, every end-point shape), VG mass (one side of 0),
+    CGMY mass / first moment (one side of 0, away from it) and the straddling second moment"""
+    ctx, nu, P, fam = c.ctx, c.nu, c.P, c.fam
+    if fam == "merton":
+        for k in range(min(nmax, 2) + 1):
+            for a, b in pairs:
+                atoms_probe(ctx, "c09.merton.model", "Integrals.mertonTerms vs _MertonLevyMeasure." + NAMED[k],
+                            f"merton {k} {w(P.intensity)} {w(P.mu_j)} {w(P.sigma_j)} {w(a)} {w(b)}",
+                            lambda o: eval_merton_terms(o, P), lambda: getattr(nu, NAMED[k])(a, b),
+                            c.inp(k, "named", a, b), c.cls(k, "named", a, b))
+    if fam == "vg":
+        for a, b in pairs:
+            if not (a > 0 or b < 0 or (a == -INF and b == INF)):
+                continue        # 0 in the closed interval: the mass is infinite
+            atoms_probe(ctx, "c09.vgmass.model", "Integrals.vgMassTerms vs _VGLevyMeasure.integrate",
+                        f"vgmass {w(P._c)} {w(P._lambda_p)} {w(P._lambda_m)} {w(a)} {w(b)}", eval_e1_terms,
+                        lambda: nu.integrate(a, b), c.inp(0, "named", a, b), c.cls(0, "named", a, b), none_means_nonfinite=True)
+    if fam == "cgmy":
+        prm = f"{w(P.c)} {w(P.g)} {w(P.m)} {w(P.y)}"
+        for a, b in pairs:
+            if a > 0 or b < 0:
+                atoms_probe(ctx, "c09.cgmy.model", "Integrals.cgmyMassTerms vs _CGMYLevyMeasure.integrate", f"cgmymass {prm} {w(a)} {w(b)}",
+                            eval_cgmy_terms, lambda: nu.integrate(a, b), c.inp(0, "named", a, b), c.cls(0, "named", a, b, moment="mass"))
+                if nmax >= 1:
+                    atoms_probe(ctx, "c09.cgmy.model", "Integrals.cgmyXTerms vs _CGMYLevyMeasure.integrate_against_x", f"cgmyx {prm} {w(a)} {w(b)}",
+                                eval_cgmy_terms, lambda: nu.integrate_against_x(a, b), c.inp(1, "named", a, b),
+                                c.cls(1, "named", a, b, moment="x"))
+            if a < 0 < b and nmax >= 2:
+                atoms_probe(ctx, "c09.cgmy.model", "Integrals.cgmyXXTerms vs _CGMYLevyMeasure.integrate_against_xx", f"cgmyxx {prm} {w(a)} {w(b)}",
+                            eval_cgmy_terms, lambda: nu.integrate_against_xx(a, b), c.inp(2, "named", a, b),
+                            c.cls(2, "named", a, b, moment="xx"))
+
+
 def draw_points(rng, nside):
     def side():
         s = set()
@@ -499,7 +669,7 @@ def density_probe(c: Case, rng, trunc_measures):
             v = float(nu(x))
         ctx.count("c09.density", inp, nontrivial=v > 0)
         r = f(M(x))
-        if not abs(M(v) - r) <= mp.mpf("1e-12") * abs(r) + mp.mpf("1e-300"):
+        if not abs(M(v) - r) <= mp.mpf("1e-11" if c.fam == "vg" else "1e-12") * abs(r) + mp.mpf("1e-300"):
             ctx.fail("oracle", "c09.density", inp, {"what": "nu(x) differs from the family's density formula", "nu": v, "formula": mp.nstr(r, 17)},
                      cls=dict(family=c.fam))
         for (l, r_), t in trunc_measures:
@@ -519,14 +689,14 @@ def density_probe(c: Case, rng, trunc_measures):
         ctx.fail("oracle", "c09.density", dict(model_desc(c.fam, c.params), x=0.0), {"what": "nu(0) raises", "exception": repr(e)}, cls=dict(family=c.fam))
 
 
-def own_density_probe(c: Case, rng, k):
+def own_density_probe(c: Case, rng, k, nmax=NMAX):
     """S with the implementation's own `__call__` as the integrand (ties the closed forms to `nu` directly)"""
     ctx, nu = c.ctx, c.nu
     fin = [p for p in c.pts if not math.isinf(p)]
     pairs = [(a, b) for a, b in zip(fin, fin[1:]) if a != 0 and b != 0]
     for _ in range(k):
         a, b = rng.choice(pairs)
-        n = rng.choice([0, 1, 2, 3, 5])
+        n = rng.choice([n_ for n_ in (0, 1, 2, 3, 5) if n_ <= nmax])
         route = rng.choice(routes(n))
         st, v = c.impl(route, n, a, b)
         if st != "ok":
@@ -563,14 +733,14 @@ def a_gt_b_probe(c: Case, rng, tms):
                                                                "implementation": v, "model": m}, cls=dict(family=c.fam, target=name))
 
 
-def run_model(ctx, fam, params, rng, nside, ntrunc):
+def run_model(ctx, fam, params, rng, nside, ntrunc, nmax=NMAX):
     pts = draw_points(rng, nside)
     c = Case(ctx, fam, params, pts)
     nu, P = c.nu, c.P
     k = len(pts)
     pairs = [(pts[i], pts[j]) for i in range(k) for j in range(i, k) if not (i == j and math.isinf(pts[i]))]
     # --- S: closed forms vs reference
-    for n in range(NMAX + 1):
+    for n in range(nmax + 1):
         for route in routes(n):
             for a, b in pairs:
                 closed_form_probe(c, route, n, a, b)
@@ -601,11 +771,11 @@ def run_model(ctx, fam, params, rng, nside, ntrunc):
             elif float(got[0]) != float(got[1]):
                 ctx.fail("oracle", "c09.truncated", c.inp(0, "named", a, b, trunc=[l, r]),
                          {"what": "empty intersection does not give a degenerate interval", "got": [float(got[0]), float(got[1])]}, cls=dict(family=fam, truncated=True))
-            for n in (rng.sample(range(NMAX + 1), 3) if not ctx.thorough else range(NMAX + 1)):
+            for n in (rng.sample(range(nmax + 1), 3) if not ctx.thorough else range(nmax + 1)):
                 for route in routes(n):
                     closed_form_probe(c, route, n, a, b, nu=tm, trunc=(l, r))
     density_probe(c, rng, tms)
-    own_density_probe(c, rng, 4 if not ctx.thorough else 10)
+    own_density_probe(c, rng, 4 if not ctx.thorough else 10, nmax)
     a_gt_b_probe(c, rng, tms)
     # --- C: closed forms that M has as exponential terms
     if fam == "hem":
@@ -615,11 +785,12 @@ def run_model(ctx, fam, params, rng, nside, ntrunc):
                 terms_probe(ctx, "c09.hem.model", "Integrals.hemTerms vs _HEMLevyMeasure." + NAMED[kx], line,
                             lambda: getattr(nu, NAMED[kx])(a, b), c.inp(kx, "named", a, b), c.cls(kx, "named", a, b))
     if fam == "vg":
-        for n in range(1, NMAX + 1):
+        for n in range(1, nmax + 1):
             for a, b in pairs:
                 line = f"vgxn {w(P._c)} {w(P._lambda_p)} {w(P._lambda_m)} {n} {w(a)} {w(b)}"
                 terms_probe(ctx, "c09.vgxn.model", "Integrals.vgXnTerms vs _VGLevyMeasure.integrate_against_xn", line,
                             lambda: nu.integrate_against_xn(a, b, n), c.inp(n, "xn", a, b), c.cls(n, "xn", a, b))
+    special_terms_probes(c, pairs, nmax)
     return c
 
 
@@ -649,6 +820,37 @@ def edge_stream(rng, thorough):
     out.append(("merton", dict(mj, mu_j=0.0, sigma=0.0)))
     out.append(("merton", dict(zoo.draw_params(rng, "merton"), intensity=0.0)))
     return out
+
+
+def reinit_stream(rng, per_family):
+    """(family, params) for the second construction history: the defaults and draws of every family, params marked with
+    zoo.REINIT so that zoo.make_levy rebuilds the model the way calibration does (parameter object edited, `initialisation()`,
+    edited back, `initialisation()`, `type(model)(parameters=obj)`); the marker is part of the recorded input, so a replay
+    rebuilds the same way"""
+    out = []
+    for fam in zoo.FAMILIES:
+        for i in range(per_family):
+            prm = {} if i == 0 else zoo.draw_params(rng, fam)
+            out.append((fam, dict(prm, **{zoo.REINIT: True})))
+    return out
+
+
+def reinit_probe(ctx, fam, params, rng):
+    """S on a re-initialised model: mass / x / x^2 (both routes) against the reference integral of the family's density (VG: from
+    the primary parameters sigma, nu, theta) and against the quadrature of the model's own `nu`; plus: every value equals the
+    freshly constructed model's value bit for bit (same float operations in `__init__` and `initialisation()`)"""
+    c = run_model(ctx, fam, params, rng, 2, ntrunc=1, nmax=2)
+    fresh_params = {k_: v_ for k_, v_ in params.items() if k_ != zoo.REINIT}
+    _, nu0 = make_nu(fam, fresh_params)
+    for (route, n, a, b), (st, v) in list(c.vals.items()):
+        st0, v0 = call(nu0, route, n, a, b)
+        inp = c.inp(n, route, a, b)
+        ctx.count("c09.reinit", inp, nontrivial=bool(st == "ok" and a < b and v != 0), branch=fam)
+        same = (st == st0) and (st != "ok" or v == v0 or (v != v and v0 != v0))
+        if not same and c.ref.integral(n, a, b) is not None:
+            ctx.fail("oracle", "c09.reinit", inp, {"what": "a model rebuilt through Parameters.initialisation() returns a different integral "
+                     "than the freshly constructed model with the same primary parameters: they cannot both equal the integral of "
+                     "the family's density", "reinitialised": v, "fresh": v0}, cls=c.cls(n, route, a, b, reinit=True))
 
 
 def xn_helper_stream(ctx, rng, count):
@@ -739,6 +941,36 @@ def special_gamma_probe(ctx, rng, count):
                 abs(mp.diff(G, M(z)) + M(z) ** (1 - M(a)) * mp.exp(-M(z))) <= mp.mpf("1e-20") * max(1, M(z) ** (1 - M(a)))
         if not ok:
             ctx.fail("corr", "c09.special_ode", inp, {"name": "hypothesis hG of cgmy_mass_pos/_neg, cgmy_x_pos/_neg on scipy gamma*gammaincc", "scipy": got}, cls={})
+
+
+def special_limits_probe(ctx, rng, count):
+    """the remaining hypotheses of the *_correct_ext / cgmy_xx_correct theorems on scipy's functions: the limits at infinity
+    (erf(+-inf) = +-1, exp1(inf) = 0, gammaincc(s, inf) = 0, gammainc(s, inf) = 1: exact values, and the functions are within
+    1e-12 of the limit far out) and the lower incomplete gamma function gamma(s)*gammainc(s, z): value, z-derivative
+    z^(s-1) e^{-z}, 0 at z = 0 and continuity there"""
+    import scipy.special as sp
+    exact = [("erf(inf)", float(sp.erf(INF)), 1.0), ("erf(-inf)", float(sp.erf(-INF)), -1.0), ("exp1(inf)", float(sp.exp1(INF)), 0.0),
+             ("erf(40)", float(sp.erf(40.0)), 1.0), ("erf(-40)", float(sp.erf(-40.0)), -1.0)]
+    for name, got, want in exact:
+        ctx.count("c09.special_ode", dict(fn=name), nontrivial=True, branch="limit")
+        if got != want:
+            ctx.fail("corr", "c09.special_ode", dict(fn=name), {"name": "limit hypothesis of merton_correct_ext / vg_mass_correct_ext", "scipy": got, "want": want}, cls={})
+    for _ in range(count):
+        s_ = rng.choice([rng.uniform(0.05, 3.0), 0.5, 1.0, 2.5])
+        z = math.exp(rng.uniform(math.log(1e-4), math.log(30)))
+        inp = dict(fn="gamma(s)*gammainc(s,z)", s=s_, x=z)
+        ctx.count("c09.special_ode", inp, nontrivial=True, branch="gammainc")
+        got = float(sp.gamma(s_) * sp.gammainc(s_, z))
+        lim = [float(sp.gammaincc(s_, INF)), float(sp.gammainc(s_, INF)), float(sp.gammainc(s_, 0.0)), float(sp.gamma(s_) * sp.gammainc(s_, 1e-300)),
+               float(sp.exp1(800.0)), float(sp.gammaincc(s_, 800.0))]
+        with mp.workdps(40):
+            G = lambda t: mp.gammainc(M(s_), 0, t)
+            ok = abs(M(got) - G(M(z))) <= mp.mpf("1e-12") * abs(G(M(z))) + mp.mpf("1e-300") and \
+                abs(mp.diff(G, M(z)) - M(z) ** (M(s_) - 1) * mp.exp(-M(z))) <= mp.mpf("1e-20") * max(1, M(z) ** (M(s_) - 1))
+        ok = ok and lim[0] == 0.0 and lim[1] == 1.0 and lim[2] == 0.0 and abs(lim[3]) <= 1e-12 and lim[4] <= 1e-300 and lim[5] <= 1e-300
+        if not ok:
+            ctx.fail("corr", "c09.special_ode", inp, {"name": "hypotheses hgl / hgl0 / hglc of cgmy_xx_correct and the limits of cgmy_*_correct_ext on scipy's "
+                                                      "gamma*gammainc / gammaincc / exp1", "scipy": got, "limits": lim}, cls={})
 
 
 class _Generic(LevyMeasure):
@@ -853,9 +1085,12 @@ def run(ctx):
         run_model(ctx, fam, params, rng, nside, ntrunc=ctx.n(2, 3))
     for fam, params in edge_stream(rng, ctx.thorough):
         run_model(ctx, fam, params, rng, 2, ntrunc=1)
+    for fam, params in reinit_stream(rng, ctx.n(2, 6)):
+        reinit_probe(ctx, fam, params, rng)
     xn_helper_stream(ctx, rng, ctx.n(90, 900))
     special_ode_probe(ctx, rng, ctx.n(20, 100))
     special_gamma_probe(ctx, rng, ctx.n(20, 100))
+    special_limits_probe(ctx, rng, ctx.n(20, 100))
     for fam in ("hem", "merton"):
         for _ in range(ctx.n(1, 6)):
             generic_fallback_probe(ctx, rng, fam, zoo.draw_params(rng, fam), 2)
@@ -921,6 +1156,12 @@ def replay(ctx, rec):
     if a > b:
         a_gt_b_probe(c, ctx.rng, [])
         return
+    if probe == "c09.reinit":
+        _, nu0 = make_nu(fam, {k_: v_ for k_, v_ in params.items() if k_ != zoo.REINIT})
+        (st, v), (st0, v0) = c.impl(route, n, a, b), call(nu0, route, n, a, b)
+        ctx.count("c09.reinit", d)
+        if not ((st == st0) and (st != "ok" or v == v0 or (v != v and v0 != v0))):
+            ctx.fail("oracle", "c09.reinit", d, {"reinitialised": v, "fresh": v0}, cls=c.cls(n, route, a, b, reinit=True))
     if "trunc" in d:
         l, r = d["trunc"]
         closed_form_probe(c, route, n, a, b, nu=TruncatedLevyMeasure(c.nu, (l, r)), trunc=(l, r))
@@ -939,3 +1180,5 @@ def replay(ctx, rec):
                     lambda: c.nu.integrate_against_xn(a, b, n), d, rec.get("cls", {}))
     if probe == "c09.split.model":
         split_model_probe(c, n, route)
+    if probe in ("c09.merton.model", "c09.vgmass.model", "c09.cgmy.model"):
+        special_terms_probes(c, [(a, b)], 2)
